@@ -27,6 +27,13 @@ EqualSpreading(q) == \A i, j \in Ix(q.pi) : DClose(q.pi[i], q.pi[j], TolEq)
 IdealMixing(q) == LET x == XOf(q.load) IN
    DClose(DDiv(DOne, DSum(q.load)), DSum([i \in Ix(x) |-> DDiv(x[i], q.n0[i])]), TolEq)
 
+\* The equal-spreading-pressure clause is about the TRUE spreading pressure, the integral of n/p of the
+\* component's own loading.  piq[i] is an independent quadrature of the input isotherm's loading_at
+\* from 0 to p0_i (recorded where hasq[i]: model isotherms); the library's spreading_pressure_at,
+\* which the IAST solver equalised, must be that integral.
+QuadBad(q) == {i \in Ix(q.pi) : q.hasq[i] /\ ~DClose(q.pi[i], q.piq[i], TolEq)}
+TrueSpreading(q) == Len(q.piq) = Len(q.pi) /\ Len(q.hasq) = Len(q.pi) /\ QuadBad(q) = {}
+
 Point(q) ==
    IF ~Lengths(q) THEN "shape"
    ELSE IF ~Positive(q) THEN "negative_loading"
@@ -34,6 +41,7 @@ Point(q) ==
    ELSE IF ~Fictitious(q) THEN "observation_not_at_fictitious_pressure"
    ELSE IF ~EqualSpreading(q) THEN "spreading_pressures_differ"
    ELSE IF ~IdealMixing(q) THEN "ideal_mixing_rule"
+   ELSE IF ~TrueSpreading(q) THEN "spreading_pressure_is_not_the_integral_of_loading"
    ELSE ""
 
 \* reverse problem: requested adsorbed fractions x, total pressure P; returned gas fractions y and loadings
